@@ -9,14 +9,16 @@ import (
 // ---------- abstract pipeline description (H1) ----------
 
 type Stage struct {
-	Op    string `json:"op"`
-	Fn    int    `json:"fn,omitempty"`
-	N     int    `json:"n,omitempty"`
-	Cost  bool   `json:"cost,omitempty"`
-	Probe bool   `json:"probe,omitempty"`
-	Fail  bool   `json:"fail,omitempty"`
-	Boom  bool   `json:"boom,omitempty"`
-	Ident bool   `json:"ident,omitempty"` // value-preserving variant (C08)
+	Op      string `json:"op"`
+	Fn      int    `json:"fn,omitempty"`
+	N       int    `json:"n,omitempty"`
+	Cost    bool   `json:"cost,omitempty"`
+	Probe   bool   `json:"probe,omitempty"`
+	Fail    bool   `json:"fail,omitempty"`
+	Boom    bool   `json:"boom,omitempty"`
+	Ident   bool   `json:"ident,omitempty"`   // value-preserving variant (C08)
+	TypeErr int    `json:"typeerr,omitempty"` // >0: elements with x%TypeErr==1 raise a language-level type error (member access on an int)
+	Sparse  int    `json:"sparse,omitempty"`  // C08 accept: only elements <= Sparse pass (nothing after that)
 }
 
 type Pipe struct {
@@ -61,6 +63,10 @@ func wrap(st Stage, s int, v string) string {
 	if st.Fail {
 		e = "fail(" + id + "," + e + ")"
 	}
+	if st.TypeErr > 0 {
+		// only behind the first elements, so that a parallel stage has already switched to its workers
+		e = "(if (" + v + ">20)&(" + v + "%" + strconv.Itoa(st.TypeErr) + "=1) then " + v + ".nokey else " + e + ")"
+	}
 	return e
 }
 
@@ -88,6 +94,9 @@ func renderStage(prev string, st Stage, s int, p *Pipe) (string, bool) {
 			"x->numbers(3).multiUse({s:l->l.sum(),n:l->l.size()}).s+" + w("x"),
 			"x->" + w("x") + "*3+1", "x->" + w("x") + "+7", "x->" + w("x") + "%1000", "x->" + w("x")}[st.Fn%12] + ")", true
 	case "accept":
+		if st.Ident && st.Sparse > 0 {
+			return prev + ".accept(x->" + w("x") + "<=" + strconv.Itoa(st.Sparse) + ")", true
+		}
 		if st.Ident {
 			return prev + ".accept(x->" + w("x") + ">=0)", true
 		}
@@ -197,6 +206,28 @@ func renderTerm(prev string, t Stage, s int, p *Pipe) (string, bool) {
 		return prev + ".top(" + strconv.Itoa(t.N) + ").size()", true
 	case "lazy", "lazyk":
 		return prev, true
+	case "listeq":
+		// comparison of two lazy lists; t.N selects the shape. The pipeline text is used
+		// twice where one operand has to be a proper prefix (or extension) of the other.
+		j := strconv.Itoa(t.N / 8 % 40)
+		switch t.N % 8 {
+		case 0:
+			return "(" + prev + ".top(" + j + ") = " + prev + ")", true
+		case 1:
+			return "(" + prev + " = " + prev + ".top(" + j + "))", true
+		case 2:
+			return "(" + prev + ".top(" + j + ") != " + prev + ")", true
+		case 3:
+			return "(" + prev + " = " + prev + ")", true
+		case 4:
+			return "(numbers(" + j + ").accept(y->y>=0) = " + prev + ")", true
+		case 5:
+			return "(" + prev + " != numbers(" + k + ").map(y->y))", true
+		case 6:
+			return "([] = " + prev + ")", true
+		default:
+			return "(" + prev + ".skip(" + j + ") = " + prev + ".skip(" + j + ").accept(y->true))", true
+		}
 	}
 	return prev, false
 }
